@@ -12,6 +12,7 @@ import concurrent.futures as cf
 import json
 import math
 import os
+import re
 import sys
 import time
 from fractions import Fraction as Fr
@@ -106,14 +107,14 @@ def gen_case(rng, tier, force=None):
     tol_e = rng.randint(4, 12)
     maxiter = rng.choice([1, 2, 3, 5, 10, 20, 50]) if rng.random() < 0.7 else rng.randint(1, 50)
     return {"kind": kind, "D": D, "K": K, "polys": polys, "A": A, "c": c, "m": m, "L": L, "x0": x0,
-            "tol_e": tol_e, "maxiter": maxiter, "singular": singular, "dup": dup, "update": update}
+            "tol_e": tol_e, "tol": Fr(float(Fr(1, 10 ** tol_e))), "probe": "", "maxiter": maxiter, "singular": singular, "dup": dup, "update": update}
 
 
 def to_impl(case):
     return {"D": case["D"], "K": case["K"],
             "polys": [[[float(cf), ex] for cf, ex in p] for p in case["polys"]],
             "m": [float(v) for v in case["m"]], "L": [[float(v) for v in r] for r in case["L"]],
-            "x0": [float(v) for v in case["x0"]], "tol": float(Fr(1, 10 ** case["tol_e"])),
+            "x0": [float(v) for v in case["x0"]], "tol": float(case["tol"]),
             "maxiter": case["maxiter"], "update": case["update"]}
 
 
@@ -128,10 +129,33 @@ def jsonable(o):
 
 
 # ------------------------------------------------------------------ Coq terms
+# Terms are written against the bigQ instance (c19b_*, literals bq n d); to_qc() rewrites a
+# term to the reference Qc instance (c19_*, Q2Qc literals) for the cross-check.
+def blit(x):
+    x = lib.frac(x)
+    n = f"({x.numerator})" if x.numerator < 0 else f"{x.numerator}"
+    return f"(bq {n}%Z {x.denominator}%N)"
+
+
+def blist(xs):
+    return "[" + "; ".join(blit(x) for x in xs) + "]"
+
+
+def bmat(rows):
+    return "[" + "; ".join(blist(r) for r in rows) + "]"
+
+
+_BQ = re.compile(r"\(bq (\(?-?\d+\)?)%Z (\d+)%N\)")
+
+
+def to_qc(term):
+    return _BQ.sub(r"(Q2Qc (\1 # \2)%Q)", term).replace("c19b_", "c19_")
+
+
 def q_polys(polys):
     rows = []
     for p in polys:
-        ms = ["(" + lib.qclit(cf) + ", [" + "; ".join(f"{e}%nat" for e in ex) + "])" for cf, ex in p]
+        ms = ["(" + blit(cf) + ", [" + "; ".join(f"{e}%nat" for e in ex) + "])" for cf, ex in p]
         rows.append("[" + "; ".join(ms) + "]")
     return "[" + "; ".join(rows) + "]"
 
@@ -141,11 +165,42 @@ def nat(n):
 
 
 def common(case):
-    return f"{nat(case['D'])} {nat(case['K'])} {q_polys(case['polys'])} {lib.qclist(case['m'])} {lib.qcmat(gram(case['L']))}"
+    return f"{nat(case['D'])} {nat(case['K'])} {q_polys(case['polys'])} {blist(case['m'])} {bmat(gram(case['L']))}"
 
 
 def tol2(case):
-    return Fr(1, 10 ** (2 * case["tol_e"]))
+    return case["tol"] ** 2      # tol is the exact value of the float handed to the implementation
+
+
+def probe_cases(rng, cases, ires, limit):
+    """Second round: the same problems with the tolerance placed just above / below the
+    residual (or increment) norm of one recorded iterate, so that each threshold of cond_fun
+    (norm vs tol * sqrt(size)) decides the exit."""
+    out = []
+    idx = [i for i, (c, r) in enumerate(zip(cases, ires))
+           if "error" not in r and c["kind"] == "nonlinear" and r["primary"]["iters"] >= 2 and not c["update"]]
+    rng.shuffle(idx)
+    for i in idx:
+        if len(out) >= limit:
+            break
+        c, r = cases[i], ires[i]
+        traj = r["traj"]
+        j = rng.randrange(1, len(traj) - 1)
+        which = rng.choice(["residual", "increment"])
+        v = traj[j]["fx"] if which == "residual" else traj[j]["dx"]
+        size = c["K"] if which == "residual" else c["D"]
+        nrm = math.sqrt(sum(t * t for t in v))
+        if not (1e-13 < nrm / math.sqrt(size) < 1e-2):
+            continue
+        side = rng.choice([1, -1])
+        tol = nrm / math.sqrt(size) * (1 + side * 2.0 ** -10)
+        pc = dict(c)
+        pc["tol"] = Fr(tol)
+        pc["tol_e"] = int(round(-math.log10(tol)))
+        pc["probe"] = f"{which}{'+' if side > 0 else '-'}"
+        pc["maxiter"] = max(c["maxiter"], j + 2)
+        out.append(pc)
+    return out
 
 
 # ------------------------------------------------------------------ exact helpers
@@ -218,6 +273,9 @@ def main():
             [gen_case(ck.rng, ck.tier, force="update") for _ in range(n_upd)]
     t_impl = time.time()
     ires = run_impl_parallel([to_impl(c) for c in cases], shards=12 if quick else 16)
+    probes = probe_cases(ck.rng, cases, ires, 16 if quick else 150)
+    ires += run_impl_parallel([to_impl(c) for c in probes], shards=8 if quick else 16)
+    cases += probes
     ck.hist["impl_seconds"] = {"value": round(time.time() - t_impl, 1)}
 
     # ---- build model terms on the implementation's own states
@@ -233,42 +291,63 @@ def main():
         D, K = c["D"], c["K"]
         traj = r["traj"]
         k = r["primary"]["iters"]
-        t2 = lib.qclit(tol2(c))
+        t2 = blit(tol2(c))
         # (1) cond_fun on every recorded state
         for j, s in enumerate(traj):
-            add(i, "cond", f"c19_cond {nat(D)} {nat(K)} {nat(c['maxiter'])} {t2} {lib.qclist(s['fx'])} "
-                           f"{lib.qclist(s['dx'])} {nat(s['i'])}", j)
+            add(i, "cond", f"c19b_cond {nat(D)} {nat(K)} {nat(c['maxiter'])} {t2} {blist(s['fx'])} "
+                           f"{blist(s['dx'])} {nat(s['i'])}", j)
         # (2) body_fun on sampled transitions
         nt = len(traj) - 1
         sel = sorted(set([0, nt - 1] + ([ck.rng.randrange(nt) for _ in range(2)] if nt > 2 else [])) & set(range(nt)))
         for t in sel:
-            add(i, "step", f"c19_step {common(c)} {lib.qclist(traj[t]['x'])} {lib.qclist(traj[t]['fx'])}", t)
+            add(i, "step", f"c19b_step {common(c)} {blist(traj[t]['x'])} {blist(traj[t]['fx'])}", t)
         # (3) the loop from the state the last iteration of the DEFAULT while_loop started from
         if k >= 1:
             p = r["prev"]
-            add(i, "loop", f"c19_loop 2%nat {common(c)} {nat(c['maxiter'])} {t2} {lib.qclist(p['x'])} "
-                           f"{lib.qclist(p['fx'])} {lib.qclist(p['dx'])} {nat(p['iters'])}")
+            add(i, "loop", f"c19b_loop 2%nat {common(c)} {nat(c['maxiter'])} {t2} {blist(p['x'])} "
+                           f"{blist(p['fx'])} {blist(p['dx'])} {nat(p['iters'])}")
         else:
             fx0 = [eval_poly(p_, c["x0"]) for p_ in c["polys"]]
-            add(i, "loop", f"c19_loop 1%nat {common(c)} {nat(c['maxiter'])} {t2} {lib.qclist(c['x0'])} "
-                           f"{lib.qclist(fx0)} {lib.qclist([1] * D)} 0%nat")
+            add(i, "loop", f"c19b_loop 1%nat {common(c)} {nat(c['maxiter'])} {t2} {blist(c['x0'])} "
+                           f"{blist(fx0)} {blist([1] * D)} 0%nat")
         # (4) affine: the complete routine and the Gaussian conditional mean
         if c["kind"] == "affine":
-            add(i, "run", f"c19_run {common(c)} {nat(c['maxiter'])} {t2} {lib.qclist(c['x0'])}")
-            add(i, "condmean", f"c19_condmean {nat(D)} {nat(K)} {lib.qcmat(c['A'])} {lib.qclist(c['c'])} "
-                               f"{lib.qclist(c['m'])} {lib.qcmat(gram(c['L']))}")
+            add(i, "run", f"c19b_run {common(c)} {nat(c['maxiter'])} {t2} {blist(c['x0'])}")
+            add(i, "condmean", f"c19b_condmean {nat(D)} {nat(K)} {bmat(c['A'])} {blist(c['c'])} "
+                               f"{blist(c['m'])} {bmat(gram(c['L']))}")
         elif c["maxiter"] <= 2:
-            add(i, "run", f"c19_run {common(c)} {nat(c['maxiter'])} {t2} {lib.qclist(c['x0'])}")
+            add(i, "run", f"c19b_run {common(c)} {nat(c['maxiter'])} {t2} {blist(c['x0'])}")
         # (5) the MAP-linearised update at the implementation's linearisation point
         if c["update"] and "update" in r:
-            add(i, "update", f"c19_update {common(c)} {lib.qclist(r['update']['xi'])}")
+            add(i, "update", f"c19b_update {common(c)} {blist(r['update']['xi'])}")
 
     mvals = None
     t_coq = time.time()
+    # cross-check terms: the reference Qc instance on the cheap ones (all kinds, small sizes)
+    xsel = [j for j, (i, what, _e) in enumerate(tags)
+            if what == "cond" or (cases[i]["D"] <= 3 and what in ("step", "condmean", "update"))]
+    ck.rng.shuffle(xsel)
+    xsel = sorted(xsel[:40 if quick else 200])
     try:
-        mvals = lib.coq_eval("C19", HEADER, terms, shard=max(8, len(terms) // 16 + 1), timeout=600, case_timeout=120)
+        with cf.ThreadPoolExecutor(max_workers=2) as tex:
+            fut_ref = tex.submit(lib.coq_eval, "C19ref", HEADER, [to_qc(terms[j]) for j in xsel], 10, 600, 4)
+            mvals = lib.coq_eval("C19", HEADER, terms, shard=max(8, len(terms) // 32 + 1), timeout=600, case_timeout=120)
+            rvals = fut_ref.result()
+        nref = 0
+        for j, rv in zip(xsel, rvals):
+            if isinstance(rv, str) or isinstance(mvals[j], str):
+                continue
+            a, b = lib.decode_optQ(rv), lib.decode_optQ(mvals[j])
+            nref += 1
+            ok = (a is None) == (b is None) and (a is None or (len(a) == len(b) and all(
+                (u == 0 and v == 0) or (u != 0 and abs((u - v) / u) < Fr(1, 2 ** 100)) for u, v in zip(a, b))))
+            if not ok:
+                ck.report("C19.model-instances-disagree", f"Qc and bigQ instances of the model disagree on term {tags[j][1]}",
+                          {"term": terms[j][:4000], "broken": "Run/C19Run.v (bigQ instance / printer)"}, nofail=True)
+        ck.hist["qc_reference_crosschecks"] = {"n": nref}
     except RuntimeError as e:
         ck.notes.append(f"model evaluation failed: {str(e)[:1500]}")
+        mvals = None
     if mvals is None:
         ck.report("C19.model-eval", "model evaluation failed (Coq)", {"notes": ck.notes, "broken": "Run/C19Run.v"},
                   nofail=True)
@@ -292,13 +371,19 @@ def main():
             continue
         prim, traj = r["primary"], r["traj"]
         k = prim["iters"]
-        tol = float(Fr(1, 10 ** c["tol_e"]))
+        tol = float(c["tol"])
+
+        def flags(fx, dx, it, K=K, D=D, tol=tol, c=c):
+            return (math.sqrt(sum(v * v for v in fx)) > tol * math.sqrt(K), it < c["maxiter"],
+                    math.sqrt(sum(v * v for v in dx)) > tol * math.sqrt(D))
+
         ck.count(key, nontrivial=k >= 1,
                  sample={"kind": c["kind"], "D": D, "K": K, "iters": k, "maxiter": c["maxiter"], "tol": tol,
                          "singular_factor": c["singular"], "polys": jsonable(c["polys"])},
                  kind=c["kind"] + ("+update" if c["update"] else ""), D=D, K=K, iters=min(k, 10), tol_exp=c["tol_e"],
                  singular_factor=c["singular"], rank_deficient_jacobian=c["dup"],
-                 exit=("budget" if k == c["maxiter"] else "converged"))
+                 probe=c["probe"] or "none",
+                 exit_by="+".join(n_ for n_, f_ in zip(("residual", "budget", "increment"), flags(prim["fx"], prim["dx"], k)) if not f_))
         C = gram(c["L"])
         xs = max([abs(float(v)) for s in traj for v in s["x"]] + [abs(float(v)) for v in c["m"]]
                  + [math.sqrt(float(C[a][a])) for a in range(D)] + [1e-300])
@@ -330,9 +415,6 @@ def main():
                 ck.report("C19.increment-not-truthful", f"final_increment != x_k - x_(k-1): {mm}", replay)
         # exit decision on the returned state: one of the three conditions must fail,
         # and all must hold at every earlier state (float evaluation as in cond_fun)
-        def flags(fx, dx, it):
-            return (math.sqrt(sum(v * v for v in fx)) > tol * math.sqrt(K), it < c["maxiter"],
-                    math.sqrt(sum(v * v for v in dx)) > tol * math.sqrt(D))
         if all(flags(prim["fx"], prim["dx"], k)):
             ck.report("C19.exit-premature", "returned although residual > tol, iters < maxiter and increment > tol", replay)
 
@@ -441,7 +523,10 @@ def main():
                     stats["model_solve_failed"] += 1
                     continue
                 cm = q[:D]
-                feasible = all(sum(c["A"][a][j] * cm[j] for j in range(D)) + c["c"][a] == 0 for a in range(K))
+                # (printer rounds to 2^-119 relative)
+                feasible = all(abs(sum(c["A"][a][j] * cm[j] for j in range(D)) + c["c"][a])
+                               <= Fr(1, 10 ** 25) * (sum(abs(c["A"][a][j] * cm[j]) for j in range(D)) + abs(c["c"][a]) + 1)
+                               for a in range(K))
                 if not feasible or c["dup"] or c["singular"]:
                     stats["pinv_cases"] += 1
                 if k >= 1:
